@@ -24,7 +24,7 @@ var c12Space = mkSpace("attribute-query", []fieldDim{
 	{"Signer", []string{"", "attacker", "sp-b"}},
 	{"Forge", []string{"", "sv-flip", "dv-flip", "attr-edit", "subject-edit", "sig-stripped", "xsw-dup-signed-first", "xsw-dup-evil-first", "xsw-two-bodies", "xsw-prefix-rebind", "xsw-prefix-rebind-decoy-first", "xsw-header-decoy"}},
 	{"KeyInfo", []string{"", "no"}},
-	{"Dest", []string{"", "absent", "sso-location", "foreign", "prefixed-advertised", "prefixed-foreign"}},
+	{"Dest", []string{"", "absent", "sso-location", "foreign", "prefixed-advertised", "prefixed-foreign", "pct-slash", "pct-letter", "upper-host", "default-port", "padded", "userinfo", "dot-segment"}},
 	{"Subject", []string{"", "bob", "unknown", "absent"}},
 	{"Attrs", []string{"", "email", "email-nofmt", "email-wrongfmt", "custom", "custom-wrongfmt", "unknown", "email+email", "email+username", "unknown+email", "email+custom+email", "all-unknown", "custom2", "collide-fmt+name", "collide-name+fmt", "collide-std-nofmt", "collide-std-noname", "collide-swapped"}},
 	// (the 15 separator-collision lists are crossed with the user shape "sep-names" in the list x record product below)
